@@ -6,7 +6,9 @@ StabilizerCompiler and DensityMatrixCompiler (subclassed only to snapshot the ot
 measurement settings; the same op sequence (the implementation's own `sequence()`) is run by the Lean model (`circ.stab`).
   exact: stabilizer backend tableau, record, outcomes == model's;  DM backend == rho(model tableau) within 1e-8, record equal;
   DM backend == the executable exact density-matrix model `compileDM` (driver `noise.run be=dm ns=0`, n_quantum <= 4, forced settings),
-  which Properties/C01.lean proves equal to rho(stabRun) for every circuit (also evaluated here on the compiled model).
+  which Properties/C01.lean proves equal to rho(stabRun) for every circuit (also evaluated here on the compiled model);
+  graphiq's matrix builders == the entrywise Hilbert-space primitives of the proofs (`primitives_check`, all n <= 4);
+  RNG draws of both backends == number of random measurements of the model.
 Direct oracle (independent numpy reference of textbook semantics): all registers start in |0>, photons indexed before emitters,
 forced outcomes honoured exactly when possible, a reset leaves the measured qubit in |0>, record = outcomes, backends agree.
 """
@@ -231,6 +233,73 @@ def ref_run(kinds, ne, np_, nc, det, bits, rho0=None):
     return rho, rec, outs
 
 
+
+def primitives_check(res, rng):
+    """The primitives of the Hilbert-space reading `DMH.dmRunH` (Proofs/DMCompileH.lean) against graphiq's builders, exhaustively for
+    n <= 4: `oneQ`, `ctrlQ`, the Z projectors, the reset Kraus pair, |0..0><0..0| are defined ENTRYWISE on bit strings in Lean
+    (qubit 0 = most significant bit of the numpy index); here the same entrywise definitions are evaluated in Python and compared
+    with `get_one_qubit_gate`, `get_two_qubit_controlled_gate`, `projectors_zbasis`, `get_reset_qubit_kraus`,
+    `create_n_product_state`, `hermitianize` and the 2x2 constants of functions.py."""
+    import graphiq.backends.density_matrix.functions as dmf
+
+    def bits(n, i):
+        return [(i >> (n - 1 - k)) & 1 for k in range(n)]
+
+    def oneq(n, q, u):
+        m = np.zeros((2 ** n, 2 ** n), dtype=complex)
+        for i in range(2 ** n):
+            for j in range(2 ** n):
+                a, b = bits(n, i), bits(n, j)
+                if all(a[k] == b[k] for k in range(n) if k != q):
+                    m[i, j] = u[a[q], b[q]]
+        return m
+
+    def ctrlq(n, c, t, u):
+        m = np.zeros((2 ** n, 2 ** n), dtype=complex)
+        for i in range(2 ** n):
+            for j in range(2 ** n):
+                a, b = bits(n, i), bits(n, j)
+                if all(a[k] == b[k] for k in range(n) if k != t):
+                    m[i, j] = u[a[t], b[t]] if b[c] else (1 if a[t] == b[t] else 0)
+        return m
+
+    def cmp(name, got, want, **inp):
+        res.evaluations += 1
+        if not (np.asarray(got).shape == np.asarray(want).shape and np.allclose(got, want, atol=1e-12)):
+            res.exact_break(f"dm-primitive:{name}", input=inp, impl=str(np.round(np.asarray(got), 6).tolist())[:300],
+                            model=str(np.round(np.asarray(want), 6).tolist())[:300])
+
+    r2 = 1 / np.sqrt(2)
+    consts = {"sigmax": [[0, 1], [1, 0]], "sigmay": [[0, -1j], [1j, 0]], "sigmaz": [[1, 0], [0, -1]], "hadamard": [[r2, r2], [r2, -r2]],
+              "phase": [[1, 0], [0, 1j]], "phase_dag": [[1, 0], [0, -1j]], "identity": [[1, 0], [0, 1]],
+              "projector_ketz0": [[1, 0], [0, 0]], "projector_ketz1": [[0, 0], [0, 1]]}
+    for k, v in consts.items():
+        cmp(k, getattr(dmf, k)(), np.array(v, dtype=complex))
+    from graphiq.backends.density_matrix.compiler import DensityMatrixCompiler
+    import graphiq.circuit.ops as ops
+    table = {"Hadamard": "hadamard", "Phase": "phase", "PhaseDagger": "phase_dag", "SigmaX": "sigmax", "SigmaY": "sigmay", "SigmaZ": "sigmaz",
+             "CNOT": "sigmax", "CZ": "sigmaz", "ClassicalCNOT": "sigmax", "ClassicalCZ": "sigmaz", "MeasurementCNOTandReset": "sigmax"}
+    for cls, k in table.items():
+        cmp(f"ops-table:{cls}", DensityMatrixCompiler.ops[getattr(ops, cls)](), np.array(consts[k], dtype=complex))
+    for n in range(1, 5):
+        cmp("create_n_product_state", dmf.create_n_product_state(n, dmf.state_ketz0()),
+            np.array([[1 if i == 0 and j == 0 else 0 for j in range(2 ** n)] for i in range(2 ** n)], dtype=complex), n=n)
+        for q in range(n):
+            g = np.array([[complex(rng.randrange(-3, 4), rng.randrange(-3, 4)) for _ in range(2)] for _ in range(2)])
+            cmp("get_one_qubit_gate", dmf.get_one_qubit_gate(n, q, g), oneq(n, q, g), n=n, q=q)
+            p = dmf.projectors_zbasis(n, q)
+            for sbit in (0, 1):
+                cmp("projectors_zbasis", p[sbit], np.diag([1.0 if bits(n, i)[q] == sbit else 0.0 for i in range(2 ** n)]), n=n, q=q, s=sbit)
+            kr = dmf.get_reset_qubit_kraus(n, q)
+            cmp("get_reset_qubit_kraus[0]", kr[0], oneq(n, q, np.array([[1, 0], [0, 0]])), n=n, q=q)
+            cmp("get_reset_qubit_kraus[1]", kr[1], oneq(n, q, np.array([[0, 1], [0, 0]])), n=n, q=q)
+            for t in range(n):
+                if t != q:
+                    cmp("get_two_qubit_controlled_gate", dmf.get_two_qubit_controlled_gate(n, q, t, g), ctrlq(n, q, t, g), n=n, c=q, t=t)
+    m = np.array([[complex(rng.random(), rng.random()) for _ in range(4)] for _ in range(4)])
+    cmp("hermitianize", dmf.hermitianize(m), (m + m.conj().T) / 2)
+
+
 def one_case(ctx, res, drv, rng, SC, DC, ne, np_, nc, length, use_dm, init=False):
     import numpy.random as npr
     from graphiq.state import QuantumState
@@ -411,6 +480,7 @@ def run(ctx, budget=1.0):
     drv = Driver()
     rng = ctx.rng
     SC, DC = make_compilers()
+    primitives_check(res, rng)
     n_small = int((260 if ctx.quick else 3000) * budget)
     for k in range(n_small):
         ne = rng.randrange(1, 4)
